@@ -242,6 +242,7 @@ func (s *Scorch) introduceSegment(next *segmentIntroduction) error {
 	rootPrev := s.root
 	s.root = newSnapshot
 	atomic.StoreUint64(&s.stats.CurRootEpoch, s.root.epoch)
+	verifHook("intro.segment", s, next, newSnapshot)
 	// release lock
 	s.rootLock.Unlock()
 
@@ -330,6 +331,7 @@ func (s *Scorch) introducePersist(persist *persistIntroduction) {
 	rootPrev := s.root
 	s.root = newIndexSnapshot
 	atomic.StoreUint64(&s.stats.CurRootEpoch, s.root.epoch)
+	verifHook("intro.persist", s, newIndexSnapshot)
 	s.rootLock.Unlock()
 
 	if rootPrev != nil {
@@ -502,6 +504,7 @@ func (s *Scorch) introduceMerge(nextMerge *segmentMerge) {
 	rootPrev := s.root
 	s.root = newSnapshot
 	atomic.StoreUint64(&s.stats.CurRootEpoch, s.root.epoch)
+	verifHook("intro.merge", s, nextMerge, newSnapshot, skipped)
 	// release lock
 	s.rootLock.Unlock()
 
